@@ -111,14 +111,15 @@ func NewEncryptedISO(f afero.File, data1 []byte, clearRegions bool) (*EncryptedI
 	var prevRegionEnd uint32
 	encryptedRegions := make([]region, hdr.Count-1)
 	for i, unencryptedRegion := range unencryptedRegions {
-		// some sanity checks: region "borders" must increase monotonically
-		if unencryptedRegion.End <= unencryptedRegion.Start {
+		// some sanity checks: region "borders" must increase monotonically.
+		// End is the last sector of unencrypted region (the same way as it's written to generated images).
+		if unencryptedRegion.End < unencryptedRegion.Start {
 			return nil, fmt.Errorf("region %d: end (%#x) less than start (%#x)",
 				i, unencryptedRegion.End, unencryptedRegion.Start)
 		}
-		if unencryptedRegion.Start < prevRegionEnd {
-			return nil, fmt.Errorf("region %d: start (%#x) less than previous region end (%#x)",
-				i, unencryptedRegion.End, prevRegionEnd)
+		if i > 0 && unencryptedRegion.Start <= prevRegionEnd {
+			return nil, fmt.Errorf("region %d: start (%#x) not after previous region end (%#x)",
+				i, unencryptedRegion.Start, prevRegionEnd)
 		}
 		prevRegionEnd = unencryptedRegion.End
 
@@ -128,8 +129,8 @@ func NewEncryptedISO(f afero.File, data1 []byte, clearRegions bool) (*EncryptedI
 
 		// encrypted region placed between previous unencrypted region and current unencrypted region
 		encryptedRegions = append(encryptedRegions, region{
-			start: regionBorder(unencryptedRegions[i-1].End),
-			end:   regionBorder(unencryptedRegion.Start),
+			start: regionBorder(uint64(unencryptedRegions[i-1].End) + 1),
+			end:   regionBorder(uint64(unencryptedRegion.Start)),
 		})
 	}
 
@@ -269,7 +270,7 @@ func (e *EncryptedISO) setIVForSector(sector sizeSectors, clone bool) cipher.Blo
 
 // regionBorder converts region border from the table to sector number. Borders above the sector number range
 // are clamped to it (instead of wrapping to negative numbers): such sectors lie beyond the end of any file.
-func regionBorder(v uint32) sizeSectors {
+func regionBorder(v uint64) sizeSectors {
 	return sizeSectors(min(v, math.MaxInt32))
 }
 
